@@ -95,6 +95,15 @@ def make_sim(I, case):
         top = I.call(I.get_class("quansino.moves.exchange.ExchangeMove"), [labels, OpaqueOp((1, 3))], {"bias_towards_insert": I.path.fresh("bias")})
         top.attrs["check_move"] = checker(I, [])
         moves.append(top)
+    elif case["move"] == "swap":
+        # a plain composite that first deletes a particle and then inserts one in the same trial (net particle change 0)
+        X = I.get_class("quansino.moves.exchange.ExchangeMove")
+        xd = I.call(X, [labels, OpaqueOp((1, 3))], {"bias_towards_insert": 0})
+        xi = I.call(X, [labels.like(labels.term), OpaqueOp((1, 3))], {"bias_towards_insert": 1})
+        for m_ in (xd, xi):
+            m_.attrs["check_move"] = checker(I, [])
+            moves.append(m_)
+        top = I.call(I.get_class("quansino.moves.composite.CompositeMove"), [[xd, xi]], {})
     else:
         total = True
 
@@ -155,6 +164,8 @@ def build(S, tier, cases=None):
             what = "failed" if verdict is None else "rejected"
             if case["move"] == "exchange":
                 what += " insertion" if "extend" in kinds else (" deletion" if "delitem" in kinds else " exchange (nothing eligible)")
+            if case["move"] == "swap":
+                what += " " + ("+".join(k_ for k_ in kinds if k_ in ("extend", "delitem")) or "nothing done")
             seen.add(what)
             lab = f"{label}[{what}]"
             atoms, snap, ctx = v["atoms"], v["snap"], v["sim"].attrs["context"]
@@ -188,7 +199,8 @@ def build(S, tier, cases=None):
                 continue
             S.guarded(label, post, i, p)
         if not any(q.status == "unsupported" for q in paths) and not any(l == label for l, _ in S.unsupported):
-            need = {"accepted"} | ({"rejected insertion", "rejected deletion", "failed insertion"} if case["move"] == "exchange" else {"rejected", "failed"})
+            need = {"accepted"} | ({"rejected insertion", "rejected deletion", "failed insertion"} if case["move"] == "exchange" else
+                                   ({"rejected delitem+extend"} if case["move"] == "swap" else {"rejected", "failed"}))
             S.prove(f"{label}#cover.outcomes", need <= seen, kind="cover", why=f"seen {sorted(seen)}")
     for fn in ("quansino.mc.contexts.DisplacementContext.revert_state", "quansino.mc.contexts.DeformationContext.revert_state", "quansino.mc.contexts.HamiltonianContext.revert_state",
                "quansino.mc.contexts.ExchangeContext.revert_state", "quansino.mc.contexts.ExchangeContext.reset", "quansino.moves.displacement.DisplacementMove.attempt_displacement",
